@@ -31,6 +31,16 @@ def _recv_call(n: ast.AST, attr: str) -> Optional[str]:
     return None
 
 
+def _list_initialised(fi: FuncInfo, name: str) -> bool:
+    for n in walk_local(fi.node):
+        if isinstance(n, (ast.Assign, ast.AnnAssign)) and n.value is not None:
+            tg = n.targets if isinstance(n, ast.Assign) else [n.target]
+            if any(isinstance(t, ast.Name) and t.id == name for t in tg) and \
+                    (isinstance(n.value, ast.List) or (isinstance(n.value, ast.Call) and norm(n.value.func) == 'list')):
+                return True
+    return False
+
+
 def _triple_and_epidata_lists(fi: FuncInfo) -> Tuple[str, str]:
     """Names of the triple list and the epidata list of _interpret_node: the returned (var, triples, epidata), or -
     when the lists are accumulators handed down the recursion - the receivers of `T.append(x)` / `E.append((x, markers))`."""
@@ -43,7 +53,10 @@ def _triple_and_epidata_lists(fi: FuncInfo) -> Tuple[str, str]:
         return rets[0].value.args[1].id, rets[0].value.args[2].id          # a namedtuple of (var, triples, epidata)
     if len(rets) == 1 and isinstance(rets[0].value, ast.Tuple) and len(rets[0].value.elts) == 2 \
             and all(isinstance(e, ast.Name) for e in rets[0].value.elts):
-        return rets[0].value.elts[0].id, rets[0].value.elts[1].id
+        a_, b_ = rets[0].value.elts[0].id, rets[0].value.elts[1].id
+        if not _list_initialised(fi, a_) and _list_initialised(fi, b_):
+            return None, b_                 # (var, pairs): one list of (triple, markers) pairs, the triples are derived from it
+        return a_, b_
     singles: Dict[str, Set[str]] = {}
     pairs: Dict[str, Set[str]] = {}
     for n in walk_local(fi.node):
@@ -63,26 +76,83 @@ def _triple_and_epidata_lists(fi: FuncInfo) -> Tuple[str, str]:
     return t, e
 
 
+def _r1_single(ctx: Ctx, rep: RuleReport, fi: FuncInfo, En: str, rec) -> None:
+    """One list of (triple, markers) pairs and nothing beside it: the two sequences cannot drift apart inside the recursion; what is left
+    to check is that every entry is such a pair, that nested results are spliced in whole, and that the caller derives the triple list
+    from the pairs in order."""
+    n_ops = 0
+    for n in walk_local(fi.node):
+        if isinstance(n, (ast.AugAssign, ast.Delete)) and En in norm(n).split('=')[0]:
+            rep.undecided(f'{fi.fq}: {norm(n)[:80]}', fi.loc(n), 'the pair list is changed by a statement that is not read')
+        if not (isinstance(n, ast.Call) and isinstance(n.func, ast.Attribute) and norm(n.func.value) == En):
+            continue
+        key = f'{fi.fq}: {norm(n)[:80]}'
+        kind = n.func.attr
+        if kind in ('append', 'insert') and len(n.args) == (1 if kind == 'append' else 2):
+            payload = n.args[-1]
+            n_ops += 1
+            if isinstance(payload, ast.Tuple) and len(payload.elts) == 2:
+                rep.ok(key, fi.loc(n), 'a (triple, markers) pair: triple and markers are one entry')
+            else:
+                rep.undecided(key, fi.loc(n), f'entry is not written as a pair: {norm(payload)[:50]}')
+        elif kind == 'extend' and len(n.args) == 1:
+            n_ops += 1
+            if rec.get(norm(n.args[0]), (0, 0))[1] == 2:
+                rep.ok(key, fi.loc(n), 'the pairs of the nested node, whole and in order')
+            else:
+                rep.undecided(key, fi.loc(n), f'origin of `{norm(n.args[0])[:40]}` not recognised')
+        elif kind in ('pop', 'remove', 'sort', 'reverse', 'clear'):
+            rep.undecided(key, fi.loc(n), 'the pair list is reordered or shortened')
+    if n_ops < 3:
+        raise AnalysisError(f'_interpret_node: only {n_ops} list updates recognised')
+    # the caller: triples = [t for t, _ in pairs]
+    it = ctx.repo.func(L, 'interpret')
+    key = 'penman.layout:interpret: the triple list is derived from the pairs, in order and complete'
+    pairs_names = set()
+    for n in walk_local(it.node):
+        if isinstance(n, ast.Assign) and isinstance(n.targets[0], ast.Tuple) and len(n.targets[0].elts) == 2 and isinstance(n.value, ast.Call) \
+                and norm(n.value.func) == fi.name and isinstance(n.targets[0].elts[1], ast.Name):
+            pairs_names.add(n.targets[0].elts[1].id)
+    derived = []
+    for n in walk_local(it.node):
+        if isinstance(n, (ast.ListComp, ast.GeneratorExp)) and len(n.generators) == 1 and norm(n.generators[0].iter) in pairs_names:
+            g = n.generators[0]
+            first = (isinstance(g.target, ast.Tuple) and len(g.target.elts) == 2 and norm(n.elt) == norm(g.target.elts[0])) or \
+                (isinstance(g.target, ast.Name) and norm(n.elt) == f'{g.target.id}[0]')
+            if first:
+                derived.append((n, g))
+    if len(derived) == 1 and not derived[0][1].ifs:
+        rep.ok(key, it.loc(derived[0][0]), norm(derived[0][0])[:70])
+    elif len(derived) == 1:
+        rep.violation(key, it.loc(derived[0][0]), f'`{norm(derived[0][0])[:70]}` filters the pairs: some triples of the tree are not in the graph while their markers are')
+    else:
+        rep.undecided(key, it.loc(), f'{len(derived)} derivations of the triple list found')
+
+
 @rule('R1', 'interpretation records epidata in step with the triple list (same order, same operations)')
 def r1(ctx: Ctx) -> RuleReport:
     rep = RuleReport('R1', r1.title, floor=5)
     fi = ctx.repo.func(L, '_interpret_node')
     Tn, En = _triple_and_epidata_lists(fi)
+    single = Tn is None
+    NRES = 2 if single else 3
     # recursive results
-    rec: Dict[str, Tuple[int, int]] = {}      # name -> (call id, slot)
+    rec: Dict[str, Tuple[int, int]] = {}      # name -> (call id, slot); the epidata slot is numbered 2 in both forms
+    def _slot(i):
+        return i + 1 if single and i == 1 else i
     for n in walk_local(fi.node):
-        if isinstance(n, ast.Assign) and isinstance(n.targets[0], ast.Tuple) and len(n.targets[0].elts) == 3 \
+        if isinstance(n, ast.Assign) and isinstance(n.targets[0], ast.Tuple) and len(n.targets[0].elts) == NRES \
                 and isinstance(n.value, ast.Call) and norm(n.value.func) == fi.name:
             for i, e in enumerate(n.targets[0].elts):
                 if isinstance(e, ast.Name):
-                    rec[e.id] = (id(n.value), i)
+                    rec[e.id] = (id(n.value), _slot(i))
     # nested = _interpret_node(...);  nested[1] / nested[2], possibly through names:  a, b = nested[1], nested[2]
     whole: Dict[str, int] = {}
     for n in walk_local(fi.node):
         if isinstance(n, ast.Assign) and len(n.targets) == 1 and isinstance(n.targets[0], ast.Name) and isinstance(n.value, ast.Call) and norm(n.value.func) == fi.name:
             whole[n.targets[0].id] = id(n.value)
-            for i in range(3):
-                rec[f'{n.targets[0].id}[{i}]'] = (id(n.value), i)
+            for i in range(NRES):
+                rec[f'{n.targets[0].id}[{i}]'] = (id(n.value), _slot(i))
     for n in walk_local(fi.node):
         if isinstance(n, ast.Assign) and len(n.targets) == 1:
             pairs_ = []
@@ -94,7 +164,7 @@ def r1(ctx: Ctx) -> RuleReport:
                 if isinstance(t_, ast.Name) and isinstance(v_, ast.Subscript) and isinstance(v_.value, ast.Name) and v_.value.id in whole:
                     oki, idx = try_fold(v_.slice)
                     if oki and isinstance(idx, int) and len(ctx.cg.local_assigns(fi).get(t_.id, [])) == 1:
-                        rec[t_.id] = (whole[v_.value.id], idx)
+                        rec[t_.id] = (whole[v_.value.id], _slot(idx))
     # a named result:  nested = _interpret_node(...);  nested.triples / nested.epidata
     rets_ = [n for n in walk_local(fi.node) if isinstance(n, ast.Return) and isinstance(n.value, ast.Call) and isinstance(n.value.func, ast.Name)]
     if rets_ and rets_[0].value.func.id in fi.module.classes:
@@ -107,115 +177,118 @@ def r1(ctx: Ctx) -> RuleReport:
     cfg = CFG(fi.node)
     pm = ctx.repo.parent_map(fi.node)
 
-    def op_of(node: Node):
-        """('T'|'E', kind, term) for a list update evaluated at this node, else None."""
-        if node.kind != 'stmt' or not isinstance(node.ast, ast.Expr) or not isinstance(node.ast.value, ast.Call):
+    if single:
+        _r1_single(ctx, rep, fi, En, rec)
+    else:
+        def op_of(node: Node):
+            """('T'|'E', kind, term) for a list update evaluated at this node, else None."""
+            if node.kind != 'stmt' or not isinstance(node.ast, ast.Expr) or not isinstance(node.ast.value, ast.Call):
+                return None
+            c = node.ast.value
+            for kind in ('append', 'extend', 'insert'):
+                r = _recv_call(c, kind)
+                if r in (Tn, En):
+                    side = 'T' if r == Tn else 'E'
+                    args = c.args
+                    if kind == 'insert':
+                        if len(args) != 2:
+                            raise AnalysisError('insert with unexpected arity')
+                        ok, pos = try_fold(args[0])
+                        payload = args[1]
+                        kindk = f'insert@{pos if ok else norm(args[0])}'
+                    else:
+                        payload = args[0]
+                        kindk = kind
+                    if kind == 'extend':
+                        term = ('rec',) + rec.get(norm(payload), (norm(payload), -1))
+                    elif side == 'E':
+                        if not (isinstance(payload, ast.Tuple) and len(payload.elts) == 2):
+                            raise AnalysisError(f'_interpret_node: epidata entry is not a (triple, markers) pair: {norm(payload)}')
+                        term = ('one', norm(payload.elts[0]))
+                    else:
+                        term = ('one', norm(payload))
+                    return side, kindk, term
             return None
-        c = node.ast.value
-        for kind in ('append', 'extend', 'insert'):
-            r = _recv_call(c, kind)
-            if r in (Tn, En):
-                side = 'T' if r == Tn else 'E'
-                args = c.args
-                if kind == 'insert':
-                    if len(args) != 2:
-                        raise AnalysisError('insert with unexpected arity')
-                    ok, pos = try_fold(args[0])
-                    payload = args[1]
-                    kindk = f'insert@{pos if ok else norm(args[0])}'
-                else:
-                    payload = args[0]
-                    kindk = kind
-                if kind == 'extend':
-                    term = ('rec',) + rec.get(norm(payload), (norm(payload), -1))
-                elif side == 'E':
-                    if not (isinstance(payload, ast.Tuple) and len(payload.elts) == 2):
-                        raise AnalysisError(f'_interpret_node: epidata entry is not a (triple, markers) pair: {norm(payload)}')
-                    term = ('one', norm(payload.elts[0]))
-                else:
-                    term = ('one', norm(payload))
-                return side, kindk, term
-        return None
 
-    ops = {nd.id: op_of(nd) for nd in cfg.nodes}
-    n_ops = sum(1 for v in ops.values() if v)
-    # forward analysis: state = None (balanced) or the pending op; conflicts are collected
-    problems: List[Tuple[int, str]] = []
-    unknown_pairs: List[Tuple[int, str]] = []
+        ops = {nd.id: op_of(nd) for nd in cfg.nodes}
+        n_ops = sum(1 for v in ops.values() if v)
+        # forward analysis: state = None (balanced) or the pending op; conflicts are collected
+        problems: List[Tuple[int, str]] = []
+        unknown_pairs: List[Tuple[int, str]] = []
 
-    def matches(a, b) -> bool:
-        (s1, k1, t1), (s2, k2, t2) = a, b
-        if s1 == s2 or k1 != k2:
+        def matches(a, b) -> bool:
+            (s1, k1, t1), (s2, k2, t2) = a, b
+            if s1 == s2 or k1 != k2:
+                return False
+            if t1[0] == 'one' and t2[0] == 'one':
+                return t1[1] == t2[1]
+            if t1[0] == 'rec' and t2[0] == 'rec':
+                # same recursive call, slots 1 (triples) and 2 (epidata)
+                tt, ee = (t1, t2) if s1 == 'T' else (t2, t1)
+                return tt[1] == ee[1] and tt[2] == 1 and ee[2] == 2
             return False
-        if t1[0] == 'one' and t2[0] == 'one':
-            return t1[1] == t2[1]
-        if t1[0] == 'rec' and t2[0] == 'rec':
-            # same recursive call, slots 1 (triples) and 2 (epidata)
-            tt, ee = (t1, t2) if s1 == 'T' else (t2, t1)
-            return tt[1] == ee[1] and tt[2] == 1 and ee[2] == 2
-        return False
 
-    BAL = ('balanced',)
-    IN: Dict[int, Set[tuple]] = {cfg.entry: {BAL}}
-    work = [cfg.entry]
-    seen_problem = set()
-    while work:
-        n = work.pop()
-        node = cfg.nodes[n]
-        outs = set()
-        for st in IN[n]:
-            o = ops.get(n)
-            if o is None:
-                if st != BAL and st[3][0] == 'one' and node.kind == 'stmt' and node.ast is not None and st[3][1] in assigned_names(node.ast) \
-                        and (n, 'rebind') not in seen_problem:
-                    seen_problem.add((n, 'rebind'))
-                    problems.append((n, f'`{norm(node.ast)[:60]}` re-binds `{st[3][1]}` between its entry in one list and its entry in the other: the marker list is recorded under the '
-                                        f'triple as written, the triple list holds the de-inverted one, so the markers (alignments included) belong to a triple that is not in the graph'))
-                outs.add(st)
-            elif st == BAL:
-                outs.add(('pending',) + o)
-            else:
-                pend = st[1:]
-                if matches(pend, o):
-                    outs.add(BAL)
+        BAL = ('balanced',)
+        IN: Dict[int, Set[tuple]] = {cfg.entry: {BAL}}
+        work = [cfg.entry]
+        seen_problem = set()
+        while work:
+            n = work.pop()
+            node = cfg.nodes[n]
+            outs = set()
+            for st in IN[n]:
+                o = ops.get(n)
+                if o is None:
+                    if st != BAL and st[3][0] == 'one' and node.kind == 'stmt' and node.ast is not None and st[3][1] in assigned_names(node.ast) \
+                            and (n, 'rebind') not in seen_problem:
+                        seen_problem.add((n, 'rebind'))
+                        problems.append((n, f'`{norm(node.ast)[:60]}` re-binds `{st[3][1]}` between its entry in one list and its entry in the other: the marker list is recorded under the '
+                                            f'triple as written, the triple list holds the de-inverted one, so the markers (alignments included) belong to a triple that is not in the graph'))
+                    outs.add(st)
+                elif st == BAL:
+                    outs.add(('pending',) + o)
                 else:
-                    unknown_src = any(t_[0] == 'rec' and t_[2] == -1 for t_ in (pend[2], o[2]))
-                    if (n, pend, o) not in seen_problem:
-                        seen_problem.add((n, pend, o))
-                        if unknown_src and pend[0] != o[0] and pend[1] == o[1]:
-                            unknown_pairs.append((n, f'`{norm(node.ast)[:70]}` extends with a list whose origin is not recognised'))
-                        else:
-                            problems.append((n, f'`{Tn if pend[0] == "T" else En}.{pend[1]}({pend[2][1] if pend[2][0] == "one" else "…"})` '
-                                                f'is answered by `{norm(node.ast)[:70]}`'))
-                    outs.add(BAL)
-        for m, lab in cfg.succ[n]:
-            # at loop heads and at the return the two lists must be level
-            tgt = cfg.nodes[m]
-            if (tgt.kind in ('for', 'loophead') or (tgt.kind == 'stmt' and isinstance(tgt.ast, ast.Return))):
-                for st in outs:
-                    if st != BAL and (m, st) not in seen_problem:
-                        seen_problem.add((m, st))
-                        problems.append((n, f'`{Tn if st[1] == "T" else En}.{st[2]}(...)` has no counterpart before {tgt!r}'))
-            if not outs <= IN.get(m, set()):
-                IN.setdefault(m, set()).update(outs)
-                work.append(m)
-    if n_ops < 4:
-        raise AnalysisError(f'_interpret_node: only {n_ops} list updates recognised')
-    for nd in cfg.nodes:
-        o = ops.get(nd.id)
-        if o and o[0] == 'T':
-            bad = [msg for n, msg in problems if n == nd.id]
-            key = f'penman.layout:_interpret_node: {norm(nd.ast)[:80]}'
-            # a problem is reported at the node that answers wrongly; attribute it to the T-op it answers
-            rep.add(key, fi.loc(nd.ast), 'ok', 'paired with the same operation on the epidata list') if not bad else None
-    for n, msg in unknown_pairs:
-        nd = cfg.nodes[n]
-        rep.undecided(f'penman.layout:_interpret_node: {norm(nd.ast)[:80]}', fi.loc(nd.ast), msg)
-    for n, msg in problems:
-        nd = cfg.nodes[n]
-        rep.violation(f'penman.layout:_interpret_node: {norm(nd.ast)[:80]}', fi.loc(nd.ast),
-                      f'{msg}: triples[i] and epidata[i] drift apart, so the POP closing a nested node lands on the wrong '
-                      f'triple (decode then encode changes the nesting)')
+                    pend = st[1:]
+                    if matches(pend, o):
+                        outs.add(BAL)
+                    else:
+                        unknown_src = any(t_[0] == 'rec' and t_[2] == -1 for t_ in (pend[2], o[2]))
+                        if (n, pend, o) not in seen_problem:
+                            seen_problem.add((n, pend, o))
+                            if unknown_src and pend[0] != o[0] and pend[1] == o[1]:
+                                unknown_pairs.append((n, f'`{norm(node.ast)[:70]}` extends with a list whose origin is not recognised'))
+                            else:
+                                problems.append((n, f'`{Tn if pend[0] == "T" else En}.{pend[1]}({pend[2][1] if pend[2][0] == "one" else "…"})` '
+                                                    f'is answered by `{norm(node.ast)[:70]}`'))
+                        outs.add(BAL)
+            for m, lab in cfg.succ[n]:
+                # at loop heads and at the return the two lists must be level
+                tgt = cfg.nodes[m]
+                if (tgt.kind in ('for', 'loophead') or (tgt.kind == 'stmt' and isinstance(tgt.ast, ast.Return))):
+                    for st in outs:
+                        if st != BAL and (m, st) not in seen_problem:
+                            seen_problem.add((m, st))
+                            problems.append((n, f'`{Tn if st[1] == "T" else En}.{st[2]}(...)` has no counterpart before {tgt!r}'))
+                if not outs <= IN.get(m, set()):
+                    IN.setdefault(m, set()).update(outs)
+                    work.append(m)
+        if n_ops < 4:
+            raise AnalysisError(f'_interpret_node: only {n_ops} list updates recognised')
+        for nd in cfg.nodes:
+            o = ops.get(nd.id)
+            if o and o[0] == 'T':
+                bad = [msg for n, msg in problems if n == nd.id]
+                key = f'penman.layout:_interpret_node: {norm(nd.ast)[:80]}'
+                # a problem is reported at the node that answers wrongly; attribute it to the T-op it answers
+                rep.add(key, fi.loc(nd.ast), 'ok', 'paired with the same operation on the epidata list') if not bad else None
+        for n, msg in unknown_pairs:
+            nd = cfg.nodes[n]
+            rep.undecided(f'penman.layout:_interpret_node: {norm(nd.ast)[:80]}', fi.loc(nd.ast), msg)
+        for n, msg in problems:
+            nd = cfg.nodes[n]
+            rep.violation(f'penman.layout:_interpret_node: {norm(nd.ast)[:80]}', fi.loc(nd.ast),
+                          f'{msg}: triples[i] and epidata[i] drift apart, so the POP closing a nested node lands on the wrong '
+                          f'triple (decode then encode changes the nesting)')
     # consumer takes the entries pairwise
     from ..resolve import expand, local_callees
     it = ctx.repo.func(L, 'interpret')
@@ -278,7 +351,7 @@ def r1(ctx: Ctx) -> RuleReport:
             base, recv = raw_base, raw
         shape = base is not None and (rec.get(norm(base), (0, 0))[1] == 2 or (shared and norm(base) == En) or (
             isinstance(base, ast.Subscript) and isinstance(base.value, ast.Call) and norm(base.value.func) == fi.name
-            and try_fold(base.slice) == (True, 2)))
+            and try_fold(base.slice) == (True, NRES - 1)))
         if not shape:
             # `epidata.extend(_epis)` directly followed by `epidata[-1][1].append(POP)`: the last entry of the own list is then the last entry of the nested
             # node (which is never empty: every node yields at least its instance triple)
@@ -319,12 +392,22 @@ def r1b(ctx: Ctx) -> RuleReport:
     cfg = CFG(fi.node)
     IN = cond_facts(cfg)
     pm = ctx.repo.parent_map(fi.node)
-    Tn, _ = _triple_and_epidata_lists(fi)
+    Tn, En_ = _triple_and_epidata_lists(fi)
+    single = Tn is None
+    if single:
+        Tn = En_
+
+    def _entry(a):
+        # in the single-list form an entry is the pair (triple, markers)
+        if single:
+            a = single_def(ctx, fi, a)
+            return a.elts[0] if isinstance(a, ast.Tuple) and len(a.elts) == 2 else a
+        return a
     found = False
     for n in walk_local(fi.node):
         if _recv_call(n, 'insert') == Tn:
             ok, pos = try_fold(n.args[0])
-            payload = single_def(ctx, fi, n.args[1])
+            payload = single_def(ctx, fi, _entry(n.args[1]))
             is_inst = isinstance(payload, ast.Tuple) and len(payload.elts) == 3 and norm(payload.elts[1]) == 'CONCEPT_ROLE' \
                 and isinstance(payload.elts[2], ast.Constant) and payload.elts[2].value is None
             if is_inst:
@@ -363,7 +446,7 @@ def r1b(ctx: Ctx) -> RuleReport:
                     else:
                         rep.undecided('penman.layout:_interpret_node: it is added exactly when no concept branch was seen', fi.loc(n))
         if _recv_call(n, 'append') == Tn:
-            payload = single_def(ctx, fi, n.args[0])
+            payload = single_def(ctx, fi, _entry(n.args[0]))
             if isinstance(payload, ast.Tuple) and len(payload.elts) == 3 and norm(payload.elts[1]) == 'CONCEPT_ROLE' \
                     and isinstance(payload.elts[2], ast.Constant) and payload.elts[2].value is None:
                 found = True
@@ -500,7 +583,7 @@ def r36(ctx: Ctx) -> RuleReport:
     cfg2 = CFG(pc.node)
     IN2 = cond_facts(cfg2)
     pm2 = repo.parent_map(pc.node)
-    inner = [n for n in walk_local(pc.node) if isinstance(n, ast.For) and 'epidata' in norm(n.iter)]
+    inner = [n for n in walk_local(pc.node) if isinstance(n, ast.For) and 'epidata' in norm(single_def(ctx, pc, n.iter) if isinstance(n.iter, ast.Name) else n.iter)]
     good = False
     bad = None
     detail = 'no list collecting one entry per Pop marker that is then extended into the data'
@@ -518,6 +601,13 @@ def r36(ctx: Ctx) -> RuleReport:
                         an, en = owner_node(cfg2, pm2, app[0]), owner_node(cfg2, pm2, ext[0])
                         good = en in cfg2.reachable_from([an])
                         detail = ''
+                    # data += [(triple, push, epis), *pops]
+                    for m in walk_local(pc.node):
+                        if isinstance(m, ast.AugAssign) and isinstance(m.op, ast.Add) and isinstance(m.value, ast.List) and len(m.value.elts) == 2 \
+                                and isinstance(m.value.elts[0], ast.Tuple) and len(m.value.elts[0].elts) == 3 \
+                                and isinstance(m.value.elts[1], ast.Starred) and norm(m.value.elts[1].value) == lst and not ext:
+                            good = True
+                            detail = ''
             # a Pop marker that only sets a flag: several markers on one triple collapse into one
             if isinstance(n, ast.Assign) and isinstance(n.targets[0], ast.Name) and isinstance(n.value, ast.Constant) and n.value.value is True:
                 if (f'isinstance({ev}, Pop)', True) in facts_at(cfg2, IN2, pm2, n):
@@ -540,6 +630,8 @@ def r36(ctx: Ctx) -> RuleReport:
         outer2 = next((a for a in _ancestors(pm2, inner[0]) if isinstance(a, ast.For)), None)
         queued = {owner_node(cfg2, pm2, m) for m in walk_local(pc.node) if _recv_call(m, 'append') and m.args and isinstance(m.args[0], ast.Tuple)
                   and len(m.args[0].elts) == 3}
+        queued |= {cfg2.node_of(m) for m in walk_local(pc.node) if isinstance(m, ast.AugAssign) and isinstance(m.op, ast.Add) and isinstance(m.value, ast.List)
+                   and m.value.elts and isinstance(m.value.elts[0], ast.Tuple) and len(m.value.elts[0].elts) == 3}
         if outer2 is not None and queued:
             oh2 = cfg2.node_of(outer2)
             p2 = cfg2.path_avoiding([(oh2, 'T')], {oh2, cfg2.exit, cfg2.rexit}, lambda nd: nd.id in queued)
@@ -772,6 +864,21 @@ def _r26_pivot_form(ctx: Ctx, rep: RuleReport, fi: FuncInfo, b: str) -> bool:
     store = st[0]
     low = store.targets[0].slice.lower
     v = store.value
+    tail_name = None
+    if isinstance(v, ast.Name):
+        # rest = b[pivot:]; rest.sort(key=key); b[pivot:] = rest
+        d = single_def(ctx, fi, v)
+        sorts = [c for c in walk_local(fi.node) if isinstance(c, ast.Call) and isinstance(c.func, ast.Attribute) and c.func.attr == 'sort' and norm(c.func.value) == v.id]
+        others = [c for c in walk_local(fi.node) if isinstance(c, ast.Call) and isinstance(c.func, ast.Attribute) and norm(c.func.value) == v.id
+                  and c.func.attr in ('append', 'extend', 'insert', 'pop', 'remove', 'reverse', 'clear')]
+        c_ = CFG(fi.node)
+        pm_ = ctx.repo.parent_map(fi.node)
+        unsorted_path = sorts and c_.path_avoiding([(c_.entry, None)], {c_.node_of(store)}, lambda nd: nd.id == owner_node(c_, pm_, sorts[0]))
+        if norm(d) == f'{b}[{norm(low)}:]' and len(sorts) == 1 and not others and not sorts[0].args and not unsorted_path:
+            tail_name = v.id
+            v = ast.Call(func=ast.Name(id='sorted', ctx=ast.Load()), args=[d], keywords=sorts[0].keywords)
+            ast.copy_location(v, sorts[0])
+            ast.fix_missing_locations(v)
     if not (isinstance(v, ast.Call) and norm(v.func) == 'sorted' and v.args and norm(v.args[0]) == f'{b}[{norm(low)}:]'):
         return False
     pv = expand(ctx, fi, low, store)
@@ -798,6 +905,8 @@ def _r26_pivot_form(ctx: Ctx, rep: RuleReport, fi: FuncInfo, b: str) -> bool:
     found = False
     for lp in [n for n in walk_local(fi.node) if isinstance(n, ast.For)]:
         it = lp.iter
+        if isinstance(it, ast.Name) and it.id == tail_name:
+            it = single_def(ctx, fi, it)
         start = None
         if norm(it) == b:
             start = 0
@@ -970,6 +1079,10 @@ def r26(ctx: Ctx) -> RuleReport:
                 rep.add(f'penman.layout:{kf.qualname}: triples are ordered by key(role)', kf.loc(), 'ok' if good else 'undecided')
             elif isinstance(kw, ast.Lambda):
                 good = norm(kw.body) == f'key({kw.args.args[0].arg}[1])'
+                if not good and isinstance(kw.body, ast.Call) and isinstance(kw.body.func, ast.Name) and len(kw.body.args) == 1 \
+                        and norm(kw.body.args[0]) == f'{kw.args.args[0].arg}[1]':
+                    alias = single_def(ctx, f, kw.body.func)        # role_key = key
+                    good = isinstance(alias, ast.Name) and alias.id == 'key'
                 rep.add('penman.layout:reconfigure: triples are ordered by key(role)', f.loc(m), 'ok' if good else 'undecided')
         elif isinstance(m, ast.Call) and m.func.attr in ('reverse', 'pop', 'remove', 'clear', 'insert', 'append', 'extend'):
             rep.violation(key, f.loc(m), f'{norm(m)[:60]} changes the triple list other than by a stable sort')
@@ -1317,6 +1430,44 @@ def _r83_early_return_form(ctx, rep, fi, cfg, IN, pm, rets):
     return rep
 
 
+def _r83_no_pop_test(ctx, rep, fi) -> None:
+    """_find_next has no POP test at all.  The pending data it is given are what _preconfigure built (POP items between the triples) minus what
+    configure has consumed; unless the caller filters the POPs out, an item taken apart as (triple, push, epis) can be a POP."""
+    key = f'{fi.fq}: POP data are recognised with isinstance(datum, Pop)'
+    dparam = fi.positional[0]
+    pre = ctx.repo.maybe_func(L, '_preconfigure')
+    makes_pops = pre is not None and any(isinstance(x, ast.Name) and x.id in ('POP', 'Pop', 'pops') for x in ast.walk(pre.node))
+    taken_apart = None
+    for n in walk_local(fi.node):
+        if isinstance(n, ast.Assign) and isinstance(n.targets[0], ast.Tuple) and isinstance(n.value, ast.Subscript) and norm(n.value.value) == dparam:
+            taken_apart = n
+        elif isinstance(n, ast.Subscript) and isinstance(n.value, ast.Subscript) and norm(n.value.value) == dparam:
+            taken_apart = taken_apart or n
+        elif isinstance(n, ast.For) and norm(n.iter).replace('reversed(', '').rstrip(')') == dparam and isinstance(n.target, ast.Tuple):
+            taken_apart = taken_apart or n
+    filtered = False
+    for cfi, call in ctx.cg.callers.get(fi.fq, []):
+        a = call.args[0] if call.args else None
+        names = {x.id for x in ast.walk(a) if isinstance(x, ast.Name)} if a is not None else set()
+        for n in walk_local(cfi.node):
+            if isinstance(n, (ast.ListComp, ast.GeneratorExp)) and 'Pop' in norm(n):
+                filtered = True
+            if isinstance(n, ast.Call) and norm(n.func) in ('filter', 'filterfalse', 'itertools.filterfalse') and 'Pop' in norm(n):
+                filtered = True
+        if not names:
+            filtered = True
+    from ..resolve import local_callees
+    # any other way of telling POPs apart (datum is POP, type(datum) is Pop, a helper, a try/except around the unpacking) is not read here
+    mentions = any(isinstance(x, ast.Name) and x.id in ('POP', 'Pop') for f_ in local_callees(ctx, fi, depth=2) for x in ast.walk(f_.node)) \
+        or any(isinstance(x, (ast.Try, ast.Match)) for x in ast.walk(fi.node)) or any(isinstance(x, ast.Call) and norm(x.func) in ('len', 'type', 'hasattr', 'getattr') and dparam in norm(x) for x in ast.walk(fi.node) if not (isinstance(x, ast.Call) and norm(x) == f'len({dparam})'))
+    if makes_pops and taken_apart is not None and not filtered and not mentions and ctx.cg.callers.get(fi.fq):
+        rep.violation(key, fi.loc(taken_apart), f'`{norm(taken_apart).splitlines()[0][:60]}` takes every pending item apart as (triple, push, markers), but the pending data still hold the '
+                      f'POP items _preconfigure put between the triples (configure only strips those at the head): as soon as the layout has to improvise a node context past a POP '
+                      f'- a hand-built or re-topped graph - encode() raises TypeError instead of writing the graph')
+    else:
+        rep.undecided(key, fi.loc())
+
+
 @rule('R83', '_find_next skips POP data, stops at the first datum it can place and splits the pending data exactly there')
 def r83(ctx: Ctx) -> RuleReport:
     rep = RuleReport('R83', r83.title, floor=2)
@@ -1375,7 +1526,7 @@ def r83(ctx: Ctx) -> RuleReport:
     # POP data: skipped (never subscripted, never a reason to stop)
     conds = [nd for nd in cfg.nodes if nd.kind == 'cond' and norm(nd.ast).startswith('isinstance(') and norm(nd.ast).endswith(', Pop)')]
     if not conds:
-        rep.undecided(f'{fi.fq}: POP data are recognised with isinstance(datum, Pop)', fi.loc())
+        _r83_no_pop_test(ctx, rep, fi)
     for c in conds:
         dn = norm(c.ast.args[0])
         loop = next((a for a in _ancestors(pm, c.ast) if isinstance(a, (ast.For, ast.While))), None)
